@@ -335,7 +335,7 @@ Qed.
 Lemma hmaxp_in l kv : In kv l -> (height (fst kv) <= hmaxp l /\ height (snd kv) <= hmaxp l)%nat.
 Proof.
   induction l as [|a l IH]; intros Hy; [destruct Hy|].
-  cbn [hmaxp fold_right]. fold (hmaxp l). destruct a as [k v]. destruct Hy as [->|Hy]; [cbn [fst snd]; lia|].
+  cbn [hmaxp fold_right]. fold (hmaxp l). destruct a as [k v]. destruct Hy as [Hy|Hy]; [subst kv; cbn [fst snd]; lia|].
   specialize (IH Hy). lia.
 Qed.
 
@@ -496,6 +496,8 @@ Proof.
       destruct kv as [k v]. cbn [fst snd] in *.
       apply andb_true_iff in Hall. destruct Hall as [Hall Hwv].
       apply andb_true_iff in Hall. destruct Hall as [Hsk Hwk].
+      match type of Hf with (_ + ?c <= _)%nat =>
+        assert (Hl' : (length (encode k) + length (encode v) <= c)%nat) by exact Hl end.
       split; [exact Hsk|]. split; intros rest'.
       * apply IHk; [exact Hwk|lia|lia].
       * apply IHv; [exact Hwv|lia|lia].
